@@ -5,7 +5,60 @@ import json, os
 HERE = os.path.dirname(os.path.abspath(__file__))
 props = [json.loads(l) for l in open(os.path.join(HERE, "properties.jsonl"))]
 
+STD_NOTE = "Trusted: rustc's MIR construction and callee resolution for the real build of /repo's working tree; the std/library contracts named in the evidence file. Idiom-bound recognisers report an unrecognised formulation as a violation rather than passing it."
+
 ARMED = {
+ "C01": dict(technique="automaton extraction from the resumable interpreter's MIR (states = variants of the dispatched state, edges = acyclic paths with guards/effects/next state/exit) + per-construct obligations (sequencing, row, let, frame pairing by depth propagation, bound once, counter protocol, zero-trip guard, body, while, resetRandom) + decision tables of FramedMap / DataEntry::eval / parser desugaring",
+   text="Decides all ten local obligations of the structural induction written in DESIGN.md on every edge of the extracted automaton (states classified by behaviour, not by name), plus the FramedMap scoping discipline, the MSB-first bits expansion and the parser's loop/repeat/while desugaring. The claim is that every per-construct obligation holds on all paths; equality of the yielded rows with a reference interpreter for a given program is not computed (no program is executed) and follows only through the hand induction.",
+   note=STD_NOTE + " The induction itself (DESIGN.md section 5, C01) is a hand argument.", ref="5 C01"),
+ "C02": dict(technique="who-may-call from public entry points over the call graph, path counting of driver calls split by result shape with callee summaries, guard and origin-slice rules on the call arguments",
+   text="Fully structural, every clause decided on all paths: which entry points can reach a driver call (transitively); exactly one read-call with the default vector in the constructor; exactly one driver call per yielded row, none for None, at most one for an error item; read-call iff update_output else write-call with empty outputs; the argument of each call is the row's own input vector passed by reborrow and the yielded DataRow.inputs is that same vector; update_output is cleared only by the clock expansion.",
+   note=STD_NOTE + " A user override of write_input is user code.", ref="5 C02"),
+ "C03": dict(technique="decision-table extraction (3x3 verdict table with n==m leaf compared with a reference written from the property), term equality of the helper methods, guard+origin rules on the extraction closure, pipeline alignment rules",
+   text="Decides the verdict table, check/is_checked/failing_outputs as terms, that a reported output is outputs[i].value of this call's answer on the edge where the entry's own signal equals outputs[i].signal with the learnt position i, never-supplied => X, and that expected entries / output indices / extracted values are aligned forward pipelines over the same index list.",
+   note=STD_NOTE, ref="5 C03"),
+ "C04": dict(technique="who-may-write / who-may-call on the outputs map, ordering (must-pass-through) rules in handle_io / next / try_new, decision tables of EvalContext::get and Expr::Variable",
+   text="Decides: variables shadow outputs; only set_outputs writes the map, replacing it with exactly its argument, called only with the constructor's answer and in the read branch; the write branch refreshes nothing; a row is evaluated strictly before its own IO and nothing is evaluated afterwards; the missing-read-output check lies on every Ok path of the constructor with its error propagated; a Z/X/unbound read is an error.",
+   note=STD_NOTE, ref="5 C04"),
+ "C05": dict(technique="guard tables of the X/C selectors, stack-height typestate of the row cache, ordered effect traces of expand_x / expand_c (writes, update_output, push/pop in reverse post-order) compared with the reference push orders, composition order in get_row",
+   text="Decides necessary structural conditions, each genuine: selection iff entry == X/C and the column is an input; refill only when the cache is empty, then expand_x, expand_c, one pop; expand_c pushes {C=0 checked, expected kept}, then {expected := X, unchecked, C=1}, then {C=0}; expand_x splits the right-most input X writing 1 then 0 with the 0-copy on top. With LIFO this is the documented order; the full 2^k / triple sequence as a value rests on the hand induction and is not computed.",
+   note=STD_NOTE + " Idiom-bound: a re-implementation with another data structure is reported as unrecognised.", ref="5 C05"),
+ "C06": dict(technique="decision-table extraction over SignalType x lookup result in build_indices, per-(index variant x entry variant) row tables of the generators, origin slices of name lookups / changed flags / prev",
+   text="Decides: columns bound by header.position(name) resp. name+\"_out\"; which list gets which column per signal type, Entry iff found, signal_index = position in the signal list, one forward pass; generators map indices to (value from own column, signals[signal_index], changed from the same column), defaults unflagged, omitted expected => X; changed = elementwise != against the previous returned row; prev written only by get_row on every returned row.",
+   note=STD_NOTE, ref="5 C06"),
+ "C07": dict(technique="who-may-construct + origin slice of the masked value + exact constant folding of the mask computation for every width 1..=64 under both overflow-check modes",
+   text="Decided exactly because the width dimension is finite: every Number entry becomes payload & m with m a function of the bits of the very signal stored in the entry; folding m for all 64 widths in checked and unchecked mode shows no failing Assert and m == 2^bits-1 (as a 64-bit pattern); Z/X pass through; virtual signals are built with 64 bits.",
+   note=STD_NOTE + " Uses the identity n & (2^b-1) == n mod 2^b in two's complement.", ref="5 C07"),
+ "C08": dict(technique="lexer-spec literals composed with conversion tables, precedence as an ordered partition, shape of the tree-insertion routine, per-operator result terms against an accepted set, path tables for operand order / lazy ite / literal radix, regex language equality",
+   text="Decides operator spellings, the 8 precedence levels (as an ordered partition), descend-right-iff-strictly-tighter insertion with role-preserving conversion, unary operand parsed as a factor, per-operator wrapping/masking/comparison terms with division under a zero test, left-then-right single evaluation, ite evaluating exactly the selected branch, and literal kinds/radices with regex languages equal to the reference. The tree-building clause rests on the stated hand invariant.",
+   note=STD_NOTE + " The accepted terms define the reference semantics.", ref="5 C08"),
+ "C12": dict(technique="grammar-trace extraction over the parser CFG (consumed terminals / non-terminals per production on Ok paths, compared with a reference grammar), block-exit ordering rule, guards on widths / arity / duplicates / header termination",
+   text="Decides that each statement / row-entry / factor production consumes exactly the reference token sequence on its Ok paths, that a block returns Ok only from the End arm after `end <kw>` of its own kind or from the Eof arm at top level (with or without a trailing newline), that after a statement only newline or end of input is accepted, row width equality, bits <= 64, unknown function / arity, duplicate header and declare names, header only at a line break, literal = checked conversion.",
+   note=STD_NOTE + " Token primitives are verified against their summaries.", ref="5 C12"),
+ "C13": dict(technique="origin slices of the driver's Err payload through `?` and the derived From impl (read from MIR), path counting per next(), guard tables of the extraction closure, lemma on the remembered answer length",
+   text="Decides: the driver's error is moved unchanged into IterationError::Driver and returned by the call that failed (constructor or that row's next()), one driver call per next() so earlier rows are unaffected; every outputs[i] read is dominated by the length test against the remembered first-answer length and the value is returned only on the signal-identity edge.",
+   note=STD_NOTE, ref="5 C13"),
+ "C14": dict(technique="constant/origin rules on the virtual Signal literal, ordering in handle_io, open/close pairing of swap_vars on all paths, who-may-write the alternate map, decision table of the Virtual arm, parser scope traces",
+   text="Decides: one 64-bit Virtual signal per declaration in order; evaluated after set_outputs with this call's answer; swap_vars before and after on every evaluating path with only iterator plumbing in between and a shared context reference; alt_vars only ever swapped; evaluation error becomes the row's error item; declaration expressions are parsed with the variable set emptied and restored.",
+   note=STD_NOTE, ref="5 C14"),
+ "C15": dict(technique="order-leak rule over every hash-container iteration site (must-pass-through sort / order-free consumer / error text / commuting loop), inventories of statics / thread-locals / ambient inputs, Freeze and ownership type facts, guard and term rules for the static iterator",
+   text="Decides: no hash order reaches a result (each iteration site classified and its class condition checked); no global or interior-mutable state, only getrandom as ambient input; TestCase is Freeze and borrowed immutably, run state owned by the iterator; try_iter_static errs exactly when outputs are read; the static iterator is a dynamic iterator whose rows are mapped field by field; the driver's answers flow only into the outputs map, the output values and the layout tests.",
+   note=STD_NOTE, ref="5 C15"),
+ "C16": dict(technique="panic inventory + discharge, constant-table rule (element names x downstream literals, attribute keys and defaults), pipeline order/verbatim rules, guard tables of the bidirectional rule, path tables of load_test / load_test_by_name",
+   text="Decides panic-freedom of the loading closure, the element -> signal/test mapping with its constants and defaults, document order and verbatim source, that a name is treated as bidirectional only when no pin has the full name and the stripped name is an Input pin (default kept), and the load_test / load_test_by_name tables. That the XML walk selects the intended nodes in every document, and behaviour under arbitrary corruption beyond panic-freedom, are not applicable to static analysis (roxmltree's run-time interpretation).",
+   note=STD_NOTE + " Library assumption: roxmltree text positions are 1-based and within the text.", ref="5 C16"),
+ "C17": dict(technique="term/origin rule on the sampled range, path counting of draws, who-may-call / who-may-touch the generator, origin rules of seeding and reset",
+   text="Decides: random samples a half-open Range{c>=0 .. eval(arg)} once and returns it unchanged; one evaluation of the bound and one gen_range per evaluation, no other generator call; random is called only from the table function and the generator is touched only by construction, reset and random; ite evaluates only the selected branch; reset re-creates the generator from the stored seed, which is never rewritten. Values and distribution are the library's.",
+   note=STD_NOTE + " rand's contracts are trusted.", ref="5 C17"),
+ "C18": dict(technique="origin slices of the vars() chain, guard table of flatten, who-may-call the variable writers, call-closure disjointness between evaluation and return, swap pairing",
+   text="Decides: vars() is flatten of the live `vars` map; flatten scans innermost-first and keeps the first occurrence; only the interpreter binds variables and moves frames; nothing reachable between a row's evaluation and the return of next() can write the map; cached expansion rows do not run the interpreter; the swap around virtual-signal evaluation is always undone. Frame discipline itself is C01's.",
+   note=STD_NOTE, ref="5 C18"),
+ "C19": dict(technique="who-may-write the line counters with guards, lexer-spec class algebra (newline exclusivity, CR skipped), token-kind typestate post-condition of the row parser, ordering between that return and the read of the counter, origin chain of `line`",
+   text="Decides: counters start at 1, are handed over unchanged, +1 exactly per consumed Eol; only Eol can contain a newline in both lexers and CR is skipped; the row parser stops before the line end and the row reads the counter before any further token is consumed; line is copied unchanged from the statement to every public row type.",
+   note=STD_NOTE + " logos longest match is trusted.", ref="5 C19"),
+ "C20": dict(technique="lexer-spec class algebra (skip classes, statelessness), backward taint from result constructors and branch conditions to span-derived values, type facts, who-may-call the token text, literal rules",
+   text="Decides: blanks and comments are exactly the skipped classes and cannot be part of other tokens, the lexer is stateless; no span-derived value reaches a result constructor or a parser branch (only text(), error locations, sort keys); result types carry no positions but line; token text is used only for names, the c/x/z letters and literals; radix handling and line counting as in C08/C19. Maximal-munch questions are outside the property's rewritings.",
+   note=STD_NOTE, ref="5 C20"),
  "C09": dict(technique="panic inventory over the MIR call-graph closure + discharge (token-kind typestate dataflow, lexer-spec class algebra, dominating guards, origin slices, who-may-construct)",
    text="Every panic-capable construct reachable from from_str/parse (non-UB MIR Assert, core::panicking call at its macro call-site, call into the may-panic API table, unclassified external callee) must be discharged by a machine-checked rule; parser loops must consume a token on every kind-feasible iteration; every ParseError location operand must be a lexer span / pair of lexer span endpoints without arithmetic. All paths of the analysed functions, no sampling. This is the right level because panics, loops without progress and span arithmetic are visible in the shape of the code; what is not decided (stack depth, miette rendering) is excluded by the property or is library behaviour.",
    note="Trusted: rustc's MIR and callee resolution; logos' generated lexer (spans are token boundaries, longest match); std contracts in the may-panic/safe tables (an unclassified external callee is reported, not assumed safe). Assumption: usize counters advanced once per token do not wrap.", ref="5 C09"),
